@@ -568,6 +568,16 @@ func (p *Parser) ParsingIter() iter.Seq[*ParserReply] {
 		const depth0 int = 0
 		for {
 			expr, err = p.ParseExpression(depth0)
+			if err == nil && expr == SexpEnd {
+				// end of the text at top level: a final atom that
+				// was not followed by a delimiter is still sitting
+				// in the lexer.
+				var flushed bool
+				flushed, err = p.lexer.flushAtEnd()
+				if err == nil && flushed {
+					continue
+				}
+			}
 			if err != nil || expr == SexpEnd {
 				p.sendMe.Err = err
 				yield(p.sendMe)
